@@ -11,12 +11,12 @@ CONSTANTS
   RG = 2
   QOrphan = TRUE
   QUnknownDsn = TRUE
-  QSplit = TRUE
+  QSplit = FALSE
   QDefaultSync = TRUE
   QHeaderIgnored = TRUE
   WT = 1
   MaxNow = 0
   WdKinds <- WdKindsOne
-  QWdFirst = TRUE
+  QWdFirst = FALSE
 INVARIANT NoOrphan
 CHECK_DEADLOCK FALSE
